@@ -573,11 +573,21 @@ def map_delitem(ex, ref, ho, k):
     ho.dom = z3.Store(ho.dom, zint(plain(k)), False)
 
 
-def elem_get(ex, er, name):
+class EventView:
+    """asyncio.Event stored in a record of a symbolic map: the flag lives in the map column"""
+
+    def __init__(self, er, name):
+        self.er = er
+        self.name = name
+
+
+def elem_get(ex, er, name, raw=False):
     ho = ex.obj(er.mref)
     if name not in ho.cols:
         raise Unsupported(f'record field {name} not modelled')
     arr, kind, default = ho.cols[name]
+    if not raw and name in getattr(ho, 'event_cols', ()):
+        return EventView(er, name)
     return elem_to_value(ex, z3.Select(arr, zint(er.key)), kind)
 
 
@@ -591,6 +601,7 @@ def elem_detach(ex, er):
     """copy of a record into a stand-alone Obj (after pop)"""
     ho = ex.obj(er.mref)
     fields = {name: elem_get(ex, er, name) for name in ho.cols}
+    # an Event object is shared with whoever waits on it: it stays a view of the map column
     return ex.alloc(Obj(ho.elem_cls, fields, ho.elem_model))
 
 
